@@ -274,6 +274,13 @@ func (p *bpipe) CloseRead() {
 	p.mu.Unlock()
 }
 
+// pending: bytes written and not yet read
+func (p *bpipe) pending() int {
+	p.mu.Lock()
+	defer p.mu.Unlock()
+	return len(p.buf)
+}
+
 func (p *bpipe) wasCut() bool {
 	p.mu.Lock()
 	defer p.mu.Unlock()
